@@ -29,6 +29,9 @@ use super::rtps_traits::RtpsWriter;
 
 pub struct RegisteredInstanceInfo {
     pub instance_handle: InstanceHandle,
+    // False once the instance is unregistered. The entry is kept because it tracks the
+    // samples of the instance that are still in the history
+    pub is_registered: bool,
     pub last_write_time: Option<Time>,
     pub samples: VecDeque<i64>,
 }
@@ -84,6 +87,7 @@ impl<T: RtpsWriter> DataWriterEntity<T> {
             if self.registered_instance_info.len() < self.qos.resource_limits.max_instances {
                 self.registered_instance_info.push(RegisteredInstanceInfo {
                     instance_handle: sample_instance_handle,
+                    is_registered: true,
                     last_write_time: None,
                     samples: VecDeque::new(),
                 });
@@ -141,6 +145,8 @@ impl<T: RtpsWriter> DataWriterEntity<T> {
             .iter_mut()
             .find(|x| x.instance_handle == sample_instance_handle)
             .expect("Instance info must exist");
+        // Writing an instance registers it
+        instance_info.is_registered = true;
 
         match &mut instance_info.last_write_time {
             Some(last_write_time) => {
@@ -192,7 +198,7 @@ impl<T: RtpsWriter> DataWriterEntity<T> {
         let Some(instance_info) = self
             .registered_instance_info
             .iter_mut()
-            .find(|x| x.instance_handle == instance_handle)
+            .find(|x| x.instance_handle == instance_handle && x.is_registered)
         else {
             return Err(DdsError::BadParameter);
         };
@@ -241,10 +247,12 @@ impl<T: RtpsWriter> DataWriterEntity<T> {
             .iter_mut()
             .find(|x| x.instance_handle == instance_handle)
         {
+            instance_info.is_registered = true;
             instance_info.last_write_time = Some(timestamp);
         } else if self.registered_instance_info.len() < self.qos.resource_limits.max_instances {
             self.registered_instance_info.push(RegisteredInstanceInfo {
                 instance_handle,
+                is_registered: true,
                 last_write_time: Some(timestamp),
                 samples: VecDeque::new(),
             });
@@ -278,11 +286,12 @@ impl<T: RtpsWriter> DataWriterEntity<T> {
         let Some(instance_info) = self
             .registered_instance_info
             .iter_mut()
-            .find(|x| x.instance_handle == instance_handle)
+            .find(|x| x.instance_handle == instance_handle && x.is_registered)
         else {
             return Err(DdsError::BadParameter);
         };
 
+        instance_info.is_registered = false;
         instance_info.last_write_time = None;
 
         let serialized_key =
